@@ -1,13 +1,51 @@
 /-
-Oracle ops for the `flush` family.  Owned by the slice that models it; see AGENT_GUIDE.md.
+Oracle ops for the `flush` family (C07): the byte-level helpers of wire.go and the byte part of
+UnwriteEmptyObjectMember / avoidFlush, computed by the models of JsonV.Model.Flush.
+
+  flush trimws <hex>            TrimSuffixWhitespace            → hex
+  flush trimstr <hex>           TrimSuffixString                → hex
+  flush trimbyte <hex> <byte>   TrimSuffixByte                  → hex
+  flush hassuffix <hex> <byte>  HasSuffixByte                   → 0|1
+  flush unwE <hex>              UnwriteEmptyObjectMember bytes  → "<0|1> <hex>" | "P" (Go slices out of range)
+  flush unwN <hex>              UnwriteOnlyObjectMemberName     → hex
+  flush ends <hex>              the `ll "" {} []` test of avoidFlush → 0|1
 -/
 import JsonV.Oracle.Util
+import JsonV.Model.Flush
 
 namespace JsonV.Oracle.Flush
-open JsonV JsonV.Oracle
+open JsonV JsonV.Oracle JsonV.Model.Flush
+
+def byteOfHex (s : String) : Option UInt8 :=
+  match bytesOfHex s with
+  | some [b] => some b
+  | _ => none
 
 def handle (op : String) (args : List String) : String :=
   match op, args with
+  | "trimws", [h] => match bytesOfHex h with
+    | some b => hexOfBytes (trimSuffixWhitespace b)
+    | none => badArgs
+  | "trimstr", [h] => match bytesOfHex h with
+    | some b => hexOfBytes (trimSuffixString b)
+    | none => badArgs
+  | "trimbyte", [h, c] => match bytesOfHex h, byteOfHex c with
+    | some b, some c => hexOfBytes (trimSuffixByte b c)
+    | _, _ => badArgs
+  | "hassuffix", [h, c] => match bytesOfHex h, byteOfHex c with
+    | some b, some c => boolStr (hasSuffixByte b c)
+    | _, _ => badArgs
+  | "unwE", [h] => match bytesOfHex h with
+    | some b => match unwriteEmptyBytes b with
+      | some (b', ok) => s!"{boolStr ok} {hexOfBytes b'}"
+      | none => "P"
+    | none => badArgs
+  | "unwN", [h] => match bytesOfHex h with
+    | some b => hexOfBytes (unwriteNameBytes b)
+    | none => badArgs
+  | "ends", [h] => match bytesOfHex h with
+    | some b => boolStr (decide (b.length ≥ 2) && endsEmptyR b.reverse)
+    | none => badArgs
   | _, _ => "ERR unimplemented"
 
 end JsonV.Oracle.Flush
